@@ -534,6 +534,11 @@ def gen_slice(rng, d, malformed):
     step = rng.choice([None, None, 1, 1, 2, 3])
     if malformed and rng.random() < 0.5:
         step = rng.choice([0, -1, -2])
+    if d > 0 and rng.random() < 0.6:            # a non-empty range, written with positive or negative bounds
+        a = rng.randint(0, d - 1)
+        b = rng.randint(a + 1, d)
+        return [rng.choice([a, a - d, None if a == 0 else a]), rng.choice([b, None if b == d else b, b - d if b < d else b]),
+                step]
     return [bound(), bound(), step]
 
 
@@ -594,6 +599,9 @@ def gen_case(rng, profile):
         n *= d
     raw = [gen_raw(rng, dtype, profile) for _ in range(n)]
     ops = []
+    if rng.random() < 0.6:                      # most histories start calibrated
+        ops.append(rng.choice([["set_coeffs", gen_coeff_arg(rng, profile)], ["set_origin", gen_origin_arg(rng, profile)],
+                               ["set_coeffs", gen_coeff_arg(rng, profile)]]))
     for _ in range(rng.randint(5, 12)):
         r = rng.random()
         if r < 0.17:
@@ -669,9 +677,9 @@ def correspondence(ctx):
     cases = list(core.load_corpus(PROP))
     moved = changed_anchors()
     scale = 2 if (moved and ctx.quick()) else 1
-    n_exact = scale * ctx.budget(850, 8000)
-    n_float = scale * ctx.budget(300, 3000)
-    n_big = scale * ctx.budget(120, 1200)
+    n_exact = scale * ctx.budget(750, 8000)
+    n_float = scale * ctx.budget(260, 3000)
+    n_big = scale * ctx.budget(100, 1200)
     for _ in range(n_exact):
         cases.append(gen_case(rng, "exact"))
     for _ in range(n_float):
@@ -1058,7 +1066,7 @@ def oracle(ctx, broken, hints):
             cases.append(h)
     cases += FIXED_CASES
     cases += list(core.load_corpus(PROP))
-    n = 4000 if (broken and not ctx.quick()) else 1200 if broken else ctx.budget(450, 4000)
+    n = 4000 if (broken and not ctx.quick()) else 1200 if broken else ctx.budget(400, 4000)
     for k in range(n):
         cases.append(gen_oracle_case(rng, "exact" if k % 4 else "float" if k % 8 else "big"))
     failures = []
